@@ -257,11 +257,11 @@ def main(prop, tier):
                 if cfg in PATTERNS and (form != "object" and mtf == "T4"):
                     continue
                 items.append((tier, "single", (cfg["label"], mtf, form)))
-    tfc2 = list(itertools.product(MEMBER_TFS, repeat=2))
+    tfc2 = list(itertools.product(MEMBER_TFS, repeat=2)) + [("T2", "t2"), ("t2", "T2"), ("t4", "T2")]  # spelling variants share a manager
     for a, b in itertools.permutations(POOL, 2):
-        for mt in tfc2 if tier != "quick" else tfc2[::2]:
+        for mt in tfc2 if tier != "quick" else tfc2[::2] + tfc2[-3:]:
             items.append((tier, "set", ((a, b), mt)))
-    tfc3 = [(None, None, None), (None, "T2", "T4"), ("T2", "T2", None), ("T4", None, "T2")]
+    tfc3 = [(None, None, None), (None, "T2", "T4"), ("T2", "T2", None), ("T4", None, "T2"), ("T2", None, "t2")]
     trip = list(itertools.permutations(POOL, 3))
     for t in (trip if tier != "quick" else trip[::6]):
         for mt in tfc3:
